@@ -77,6 +77,9 @@ func (p *processor) Execute(db *DB) *DB {
 	for len(db.Statement.scopes) > 0 {
 		db = db.executeScopes()
 	}
+	// a scope may hand back a handle made with Session or WithContext: go on with an instance of it, so
+	// that what the callbacks record (the started transaction, settings) stays with the statement they run
+	db = db.getInstance()
 
 	var (
 		curTime           = time.Now()
